@@ -732,6 +732,87 @@ func runC02(c *Ctx) {
 		}
 	}
 
+	// ---- (f) the Sign helpers with sparse headers: what the signer saw is what the message carries ----
+	// (zero-value Headers, nil protected map, nil unprotected map, empty maps; with and without alg and
+	// external data; the protected bytes inside the recorded ToBeSigned are the ones emitted)
+	{
+		type hv struct {
+			name string
+			mk   func() cose.Headers
+		}
+		hvs := []hv{
+			{"zero-value", func() cose.Headers { return cose.Headers{} }},
+			{"nil-protected", func() cose.Headers { return cose.Headers{Unprotected: cose.UnprotectedHeader{int64(4): []byte("k")}} }},
+			{"nil-unprotected", func() cose.Headers { return cose.Headers{Protected: cose.ProtectedHeader{int64(3): "a/b"}} }},
+			{"empty-maps", func() cose.Headers { return cose.Headers{Protected: cose.ProtectedHeader{}, Unprotected: cose.UnprotectedHeader{}} }},
+			{"alg-given", func() cose.Headers { return cose.Headers{Protected: cose.ProtectedHeader{int64(1): cose.AlgorithmES256}} }},
+			{"alg-in-unprotected-only", func() cose.Headers { return cose.Headers{Unprotected: cose.UnprotectedHeader{int64(1): cose.AlgorithmES256}} }},
+		}
+		for _, h := range hvs {
+			for _, ext := range [][]byte{nil, {}, []byte("ext")} {
+				for _, helper := range []string{"Sign1", "Sign1Untagged", "SignHashEnvelope", "Sign1Message.Sign+MarshalCBOR", "UntaggedSign1Message.Sign+MarshalCBOR"} {
+					if helper == "SignHashEnvelope" && len(ext) > 0 {
+						continue
+					}
+					spy := &mon.SpySigner{Alg: cose.AlgorithmES256}
+					payload := []byte("payload")
+					cell := fmt.Sprintf("helper/%s/headers=%s/ext=%s", helper, h.name, gen.ExternalClass(ext))
+					in := map[string]any{"cell": cell}
+					var out []byte
+					var err error
+					if guard(rec, helper, in, func() {
+						switch helper {
+						case "Sign1":
+							out, err = cose.Sign1(gen.Entropy, spy, h.mk(), payload, ext)
+						case "Sign1Untagged":
+							out, err = cose.Sign1Untagged(gen.Entropy, spy, h.mk(), payload, ext)
+						case "SignHashEnvelope":
+							payload = make([]byte, 32)
+							out, err = cose.SignHashEnvelope(gen.Entropy, spy, h.mk(), cose.HashEnvelopePayload{HashAlgorithm: cose.AlgorithmSHA256, HashValue: payload})
+						case "Sign1Message.Sign+MarshalCBOR":
+							m := &cose.Sign1Message{Headers: h.mk(), Payload: payload}
+							if err = m.Sign(gen.Entropy, ext, spy); err == nil {
+								out, err = m.MarshalCBOR()
+							}
+						default:
+							m := &cose.UntaggedSign1Message{Headers: h.mk(), Payload: payload}
+							if err = m.Sign(gen.Entropy, ext, spy); err == nil {
+								out, err = m.MarshalCBOR()
+							}
+						}
+					}) {
+						continue
+					}
+					rec.Eval(1)
+					rec.Event("helper-cases")
+					rec.Class(fmt.Sprintf("%s/ok=%v", cell, err == nil))
+					if err != nil {
+						if spy.Calls != 0 && len(out) > 0 {
+							rec.Violate("tbs-mismatch", cell+"/bytes-with-error", "bytes returned together with an error", in)
+						}
+						continue
+					}
+					n, perr := refcbor.Parse(out)
+					if perr != nil {
+						rec.Violate("tbs-mismatch", cell+"/unreadable", "emitted message is not CBOR", in)
+						continue
+					}
+					for n.Major == refcbor.Tag {
+						n = n.Kids[0]
+					}
+					if n.Major != refcbor.Array || len(n.Kids) != 4 || n.Kids[0].Major != refcbor.Bstr || spy.Calls != 1 {
+						rec.Violate("tbs-mismatch", cell+"/shape", fmt.Sprintf("emitted message has an unexpected shape or the signer was called %d times", spy.Calls), in)
+						continue
+					}
+					want := refcose.Sign1Structure(n.Kids[0].Str, ext, payload)
+					if !eqBytes(spy.Last(), want) {
+						rec.Violate("tbs-mismatch", cell, fmt.Sprintf("the signer got %s\nbut the emitted message (protected %s) calls for %s", hexs(spy.Last()), hexs(n.Kids[0].Str), hexs(want)), in)
+					}
+				}
+			}
+		}
+	}
+	rec.Require("helper-cases", 60)
 	rec.Require("hostile-argument-cases", 100)
 	rec.Require("large-field-cases", 60)
 	rec.Require("Sign1Message.Sign", 100)
